@@ -177,11 +177,20 @@ def run(ctx):
 
     btrace = os.path.join(bodydir, "trace.ndjson")
     bsum = json.load(open(os.path.join(bodydir, "summary.json")))
-    with concurrent.futures.ThreadPoolExecutor(max_workers=2) as ex:
-        fp = ex.submit(validate, ctx, ptrace, 14 if thorough else 12, "vprog")
-        fbv = ex.submit(validate, ctx, btrace, 6 if thorough else 3, "vbody")
-        pv, pst = fp.result()
-        bv, bst = fbv.result()
+    # ~16 single-worker JVMs side by side: keep each one's GC / JIT thread pools small
+    old_jto = os.environ.get("JAVA_TOOL_OPTIONS")
+    os.environ["JAVA_TOOL_OPTIONS"] = ((old_jto + " ") if old_jto else "") + "-XX:ParallelGCThreads=2 -XX:CICompilerCount=2"
+    try:
+        with concurrent.futures.ThreadPoolExecutor(max_workers=2) as ex:
+            fp = ex.submit(validate, ctx, ptrace, 13 if thorough else 12, "vprog")
+            fbv = ex.submit(validate, ctx, btrace, 3, "vbody")
+            pv, pst = fp.result()
+            bv, bst = fbv.result()
+    finally:
+        if old_jto is None:
+            os.environ.pop("JAVA_TOOL_OPTIONS", None)
+        else:
+            os.environ["JAVA_TOOL_OPTIONS"] = old_jto
     ctx.say("C09: traces validated by TLC (%.1fs)" % (time.time() - t1))
     if pst["progs"] != nprog or pst["bodies"] != 0:
         raise vlib.Inconclusive("trace validation evaluated %d programs, %d were recorded" % (pst["progs"], nprog))
